@@ -105,6 +105,8 @@ func (db *DB) Merge() error {
 			pos := db.index.Get(logRecord.Key)
 			if pos != nil && pos.Fid == dataFile.ID &&
 				pos.Offset == logRecordPos.Offset && pos.BlockID == logRecordPos.BlockID {
+				// 重写后的记录不再属于任何批次, 否则缺少批处理完成标识, 重启时会被忽略
+				logRecord.BatchID = 0
 				// 将数据重写到 merge 临时目录中
 				pos, err := mergeDB.appendLogRecord(logRecord)
 				if err != nil {
